@@ -426,12 +426,14 @@ static unsigned long long ulps(const Pars &p, double got, double want)
     return (unsigned long long)d;
 }
 
+static const int LONG_MANTISSA = 15; // more significant digits than this: the double accumulator of igris_atof64 starts rounding
 struct Lit
 {
     int mant_digits; // digits in the mantissa (integer + fraction)
     int frac_digits;
     bool has_exp;
     int exp_val; // signed
+    int sig_digits = 0; // mantissa digits from the first non-zero one on
 };
 
 static void check_parse(const Pars &p, const char *s, size_t slen, const Lit &L, double want_d, float want_f, size_t want_end, uint64_t &worst)
@@ -476,6 +478,10 @@ static void check_parse(const Pars &p, const char *s, size_t slen, const Lit &L,
             cls = "with_wrong_end";
         else if (u <= 128 && ashift > 10 && std::isfinite(got) && got != 0 && (got < 0) == (want < 0))
             cls = "scaling_drift.decimal_shift_gt_10";
+        else if (u <= 128 && L.sig_digits > LONG_MANTISSA && std::isfinite(got) && got != 0 && (got < 0) == (want < 0))
+            cls = mc::fmt("long_mantissa_drift.digits_gt_%d", LONG_MANTISSA); // small error only: a wrapped or truncated mantissa is orders of magnitude off
+        else if (u > 1024)
+            cls = L.sig_digits > LONG_MANTISSA ? "gross_error.long_mantissa" : L.has_exp ? "gross_error.exponent" : L.frac_digits ? "gross_error.fraction" : "gross_error.integer";
         else if (L.has_exp && L.exp_val < 0)
             cls = "negative_exponent";
         else if (L.has_exp)
@@ -766,6 +772,93 @@ MC_INIT
             }
             mc::tick();
         }
+        mc::crash_context("C12.harness");
+        for (auto &o : outs)
+            mc::outcome(o);
+        mc::count(mc::fmt("worst_ulp_distance_%llu", (unsigned long long)(worst > 200 ? 200 : worst)), 1);
+        if (nt)
+            mc::nontrivial();
+        mc::more_cases(cases - 1, nt ? nt - 1 : 0);
+    });
+
+    // (6) long mantissas: 1..40 significant digits (all 9s, all 1s, 1 and zeros, the digits of pi, the neighbourhoods of 2^53, 2^63,
+    //     2^64, 10^19), with and without leading zeros, the decimal point at every position (and absent), sign, exponents
+    //     {none, e-5, e+5, E0}, terminators {"", " ", "x", "e"}, the five entry points; oracle as in (5)
+    mc::add_check("parse_long_mantissa", [] {
+        static std::vector<std::string> DS;
+        if (DS.empty())
+        {
+            static const char PI[] = "3141592653589793238462643383279502884197";
+            for (int L = 1; L <= 40; L++)
+            {
+                DS.push_back(std::string(L, '9'));
+                DS.push_back(std::string(L, '1'));
+                DS.push_back("1" + std::string(L - 1, '0'));
+                DS.push_back(std::string(PI, L));
+            }
+            for (const char *q : {"9007199254740991", "9007199254740992", "9007199254740993", "9007199254740994", "9223372036854775807", "9223372036854775808",
+                                  "9223372036854775809", "18446744073709551615", "18446744073709551616", "18446744073709551617", "9999999999999999998",
+                                  "10000000000000000001", "4294967295", "4294967296", "4294967297", "17976931348623157", "12345678901234567890123456789",
+                                  "50000000000000000000000000000000000001"})
+                DS.push_back(q);
+        }
+        int c0 = mc::choose((int)DS.size() * 2);
+        const std::string &dg = DS[c0 / 2];
+        bool lead0 = c0 % 2;
+        int nd = (int)dg.size();
+        mc::describe("digits %s%s (%d significant): point at every position / absent x 3 signs x 4 exponents x 4 terminators x 5 entry points", lead0 ? "00+" : "",
+                     dg.c_str(), nd);
+        static const char *const SG[3] = {"", "-", "+"};
+        static const char *const EX[4] = {"", "e-5", "e+5", "E0"};
+        static const int EXV[4] = {0, -5, 5, 0};
+        static const char *const T[4] = {"", " ", "x", "e"};
+        uint64_t cases = 0, nt = 0, worst = 0;
+        std::set<std::string> outs;
+        char lit[120];
+        for (int pt = -1; pt <= nd; pt++) // -1: no point; k: point after k digits
+            for (int sg = 0; sg < 3; sg++)
+                for (int ex = 0; ex < 4; ex++)
+                    for (int t = 0; t < 4; t++)
+                    {
+                        int n = 0;
+                        for (const char *q = SG[sg]; *q; q++)
+                            lit[n++] = *q;
+                        int lz = lead0 ? 2 : 0;
+                        // leading zeros go in front of the integer part; if the point is at position 0 they are the integer part
+                        for (int i = 0; i < lz; i++)
+                            lit[n++] = '0';
+                        for (int i = 0; i < nd; i++)
+                        {
+                            if (i == pt)
+                                lit[n++] = '.';
+                            lit[n++] = dg[i];
+                        }
+                        if (pt == nd)
+                            lit[n++] = '.';
+                        for (const char *q = EX[ex]; *q; q++)
+                            lit[n++] = *q;
+                        int litlen = n;
+                        for (const char *q = T[t]; *q; q++)
+                            lit[n++] = *q;
+                        lit[n] = 0;
+                        Lit L{lz + nd, pt < 0 ? 0 : nd - pt, ex != 0, EXV[ex], nd};
+                        const char *s = exact_copy(lit, n);
+                        char *gend = nullptr;
+                        double wd = strtod(s, &gend);
+                        float wf = strtof(s, nullptr);
+                        size_t wend = gend - s;
+                        if (wend < (size_t)litlen)
+                            mc::harness_error("glibc strtod(\"%s\") ended at %zu, literal length %d", s, wend, litlen);
+                        for (int k = 0; k < NPARS; k++)
+                        {
+                            mc::crash_context("C12.%s.memory", PARS[k].name);
+                            check_parse(PARS[k], s, n, L, wd, wf, wend, worst);
+                            cases++;
+                            nt += nd > LONG_MANTISSA;
+                        }
+                        if (outs.size() < 100)
+                            outs.insert(mc::fmt("end=%zu", wend));
+                    }
         mc::crash_context("C12.harness");
         for (auto &o : outs)
             mc::outcome(o);
